@@ -407,6 +407,83 @@ def rule_f(ctx):
     ctx.floor(R, 5)
 
 
+ARGCOUNT_IDIOMS = {
+    # expression (with M the model variable) -> number of its counted parameters that are NOT extra positional arguments
+    "M.__call__.__code__.co_argcount": 2,            # self and the signal
+    "len(signature(M).parameters)": 1,                 # bound: the signal only
+    "len(inspect.signature(M).parameters)": 1,
+    "len(signature(M.__call__).parameters)": 1,        # bound method
+    "len(inspect.signature(M.__call__).parameters)": 1,
+}
+
+
+def rule_g(ctx):
+    R = "C14.g"
+    ctx.rule(R, "a combined model forwards to each part exactly the extra positional arguments that part accepts: the argument count is read "
+             "with a recognised idiom (code object: counts self and the signal; inspect.signature of the bound model: counts the signal only) "
+             "and the slice args[:count - k] uses the k that belongs to the idiom; the no-extra-argument test compares with the same k")
+    m = ctx.model
+    f = m.func(COMB, "CombinedModel.__call__")
+    ctx.instance(R)
+    loops = [l for l in f.node.body if isinstance(l, ast.For) and norm(l.iter) == "self.models" and isinstance(l.target, ast.Name)]
+    ctx.need(len(loops) == 1, f"{f.qname}: loop over self.models not found")
+    lp = loops[0]
+    M = lp.target.id
+    va = f.node.args.vararg.arg if f.node.args.vararg else None
+    ctx.need(va is not None, f"{f.qname}: no *args to forward")
+    cnt = [s_ for s_ in lp.body if isinstance(s_, ast.Assign) and isinstance(s_.targets[0], ast.Name)]
+    slices = [x for x in ast.walk(lp) if isinstance(x, ast.Subscript) and norm(x.value) == va and isinstance(x.slice, ast.Slice)]
+    ctx.need(len(slices) == 1, f"{f.qname}: slice of *{va} forwarded to the parts not found")
+    up = slices[0].slice.upper
+    # resolve the count expression through the loop-local assignment
+    local = {s_.targets[0].id: s_.value for s_ in cnt}
+    k_used, cexpr = None, None
+    if isinstance(up, ast.BinOp) and isinstance(up.op, ast.Sub) and isinstance(up.right, ast.Constant):
+        k_used = up.right.value
+        cexpr = local.get(up.left.id, up.left) if isinstance(up.left, ast.Name) else up.left
+    elif up is not None:
+        k_used = 0
+        cexpr = local.get(up.id, up) if isinstance(up, ast.Name) else up
+    idiom = norm(cexpr).replace(M, "M") if cexpr is not None else None
+    if idiom not in ARGCOUNT_IDIOMS:
+        raise AnalysisError(f"{f.qname}: unrecognised way of counting the arguments of a part: `{idiom}`")
+    k_want = ARGCOUNT_IDIOMS[idiom]
+    ctx.ob(R, f.qname, f"extra arguments forwarded = count - {k_want} for the idiom `{idiom}`", slices[0].slice.lower is None and k_used == k_want,
+           f"`{norm(slices[0])}` with `{idiom}`: a part accepting n extra arguments receives n{k_want - k_used:+d}", slices[0])
+    tests = [t for t in ast.walk(lp) if isinstance(t, ast.If) and isinstance(t.test, ast.Compare) and len(t.test.ops) == 1 and isinstance(t.test.ops[0], ast.Eq)
+             and isinstance(t.test.comparators[0], ast.Constant) and isinstance(t.test.left, ast.Name) and t.test.left.id in local]
+    for t in tests:
+        ctx.ob(R, f.qname, "the 'no extra argument' test uses the same offset", t.test.comparators[0].value == k_want, norm(t.test), t)
+    ctx.floor(R, 1)
+
+
+def rule_h(ctx):
+    R = "C14.h"
+    ctx.rule(R, "the interpolation matrix is the full kernel matrix: X[i, j] = kernel(supports[i], supports[j]) is stored for every index pair "
+             "(full square, or a triangle that includes the diagonal together with the mirrored store); the weights are X^-1 . values")
+    m = ctx.model
+    f = m.func(KINT, "KernelInterpolation.setup_kernel_problem")
+    ctx.instance(R)
+    outer = [l for l in ast.walk(f.node) if isinstance(l, ast.For) and any(isinstance(b, ast.For) for b in l.body)]
+    ctx.need(len(outer) == 1, f"{f.qname}: double loop filling the kernel matrix not found")
+    o = outer[0]
+    inner = [b for b in o.body if isinstance(b, ast.For)][0]
+    i, j = norm(o.target), norm(inner.target)
+    full_o = norm(o.iter) == "range(self.num_supports)"
+    it = norm(inner.iter)
+    shape = "full" if it == "range(self.num_supports)" else ("upper+diag" if it == f"range({i}, self.num_supports)" else ("upper" if it == f"range({i} + 1, self.num_supports)" else "other"))
+    stores = {norm(s_.targets[0]): norm(s_.value) for s_ in inner.body if isinstance(s_, ast.Assign)}
+    main = stores.get(f"self.X[{i}, {j}]") == f"self.kernel(self.supports[{i}], self.supports[{j}])"
+    mirror = stores.get(f"self.X[{j}, {i}]") in (f"self.X[{i}, {j}]", f"self.kernel(self.supports[{j}], self.supports[{i}])", f"self.kernel(self.supports[{i}], self.supports[{j}])")
+    diag = any(isinstance(s_, ast.Assign) and norm(s_.targets[0]) == f"self.X[{i}, {i}]" and norm(s_.value) == f"self.kernel(self.supports[{i}], self.supports[{i}])" for s_ in o.body)
+    ok = full_o and main and (shape == "full" or (shape == "upper+diag" and mirror) or (shape == "upper" and mirror and diag))
+    ctx.ob(R, f.qname, "every entry X[i, j], diagonal included, is kernel(supports[i], supports[j])", ok,
+           f"outer {norm(o.iter)}, inner {it} ({shape}), stores {stores}: entries not covered keep the initial value of the matrix", o)
+    am = AM(f)
+    ctx.ob(R, f.qname, "the inverse is taken of that matrix", am.has(f.node, "self.Xinv = np.linalg.inv(self.X)") is not None, "", f.node)
+    ctx.floor(R, 1)
+
+
 def run(ctx):
     rule_a(ctx)
     rule_b(ctx)
@@ -414,3 +491,5 @@ def run(ctx):
     rule_d(ctx)
     rule_e(ctx)
     rule_f(ctx)
+    rule_g(ctx)
+    rule_h(ctx)
